@@ -276,17 +276,35 @@ Definition srec_eqb (a b : srec) : bool := text_eqb (fst a) (fst b) && text_eqb 
 
 (* one real call of CodeRecord.update_statements: the root children are numbered 1..n, nodes created by the call are 0 *)
 Record us_obs := mkUs {
+  uo_name : text;                            (* record name (PK, ERROR, ...) *)
   uo_verb : list bool;                       (* per root child: is it a `verbatim` tree *)
-  uo_index : list idx;                       (* self._index *)
-  uo_script : list (dop * nat);              (* lcs.diff(old, new): operation and a statement number *)
-  uo_result : list nat                       (* children of the new root *)
+  uo_index : list idx;                       (* self._index used by the call *)
+  uo_script : list (dop * nat);              (* lcs.diff(old, new): operation and the entry's number in the script *)
+  uo_gen : list (nat * nat);                 (* script entry number -> number of nodes _statement_to_nodes returned *)
+  uo_result : list nat;                      (* children of the new root *)
+  uo_new_index : list idx                    (* _index stored in the new record *)
 }.
+Definition idx_eqb (a b : idx) : bool :=
+  match a, b with (a1, a2, a3, a4), (b1, b2, b3, b4) => Nat.eqb a1 b1 && Nat.eqb a2 b2 && Nat.eqb a3 b3 && Nat.eqb a4 b4 end.
+Definition us_gen (u : us_obs) (k : nat) : list nat :=
+  match find (fun p => Nat.eqb (fst p) k) (uo_gen u) with Some p => repeat 0 (snd p) | None => [] end.
 Definition check_us (u : us_obs) : bool :=
   let n := length (uo_verb u) in
-  match update_statements_children nat nat (fun _ => [0]) (seq 1 n) (uo_verb u) (uo_index u) (uo_script u) with
-  | Some res => list_eqb Nat.eqb (filter (fun x => negb (Nat.eqb x 0)) res)
-                                 (filter (fun x => negb (Nat.eqb x 0)) (uo_result u))
-  | None => false
+  match update_statements_children nat nat (us_gen u) (seq 1 n) (uo_verb u) (uo_index u) (uo_script u),
+        update_statements_index nat nat (us_gen u) (seq 1 n) (uo_verb u) (uo_index u) (uo_script u) with
+  | Some res, Some ix => list_eqb Nat.eqb res (uo_result u) && list_eqb idx_eqb ix (uo_new_index u)
+  | _, _ => false
+  end.
+(* successive edits of the same code record: the index used by a call is the one the previous call stored *)
+Fixpoint chain_ok (prev : list (text * list idx)) (us : list us_obs) : bool :=
+  match us with
+  | [] => true
+  | u :: tl =>
+      (match find (fun p => text_eqb (fst p) (uo_name u)) prev with
+       | Some p => list_eqb idx_eqb (snd p) (uo_index u)
+       | None => true
+       end) &&
+      chain_ok ((uo_name u, uo_new_index u) :: prev) tl
   end.
 
 Record mstep := mkMStep {
@@ -294,7 +312,10 @@ Record mstep := mkMStep {
   ms_after : option (list srec);             (* None = the call raised *)
   ms_calls : list edit_obs;
   ms_nonstmt : list (text * nat * list text); (* code record name, occurrence, its non-statement root children after *)
-  ms_updates : list us_obs                   (* the real update_statements calls *)
+  ms_updates : list us_obs;                  (* the real update_statements calls *)
+  ms_sizes_in : option (nat * nat * bool);   (* resulting model: number of thetas, compartments, has a compartmental system *)
+  ms_sizes_ins : list (list sizes_opt);      (* options of every $SIZES record inserted during the step *)
+  ms_reread : bool                           (* re-reading the resulting code gives the in-memory statements *)
 }.
 Record mcase := mkMCase {
   mc_text : text;
@@ -302,7 +323,8 @@ Record mcase := mkMCase {
   mc_before : list srec;                     (* records of parse(text) *)
   mc_nonstmt : list (text * nat * list text); (* non-statement root children (comments, verbatim) of the code records *)
   mc_us : mstep;                             (* update_source() without any modification *)
-  mc_edits : list mstep
+  mc_edits : list mstep;
+  mc_history : list mstep                    (* successive edits, each applied to the result of the previous one *)
 }.
 
 Definition s_ABBR : text := T "ABBREVIATED".
@@ -359,6 +381,21 @@ Definition nonstmt_ok (before after : list (text * nat * list text)) (after_name
     | None => Nat.leb (length (filter (text_eqb (fst (fst b))) after_names)) (snd (fst b))     (* that record no longer exists *)
     end) before.
 
+Definition static_sizes : sizes_thr := mkSizesThr 101 30 99.
+Definition s_SIZES_name : text := T "SIZES".
+Definition sizes_tags (s : mstep) : list nat :=
+  match ms_sizes_in s with
+  | None => []
+  | Some (nth, ncomp, cs) =>
+      match sizes_opts static_sizes nth ncomp cs with
+      | None => []
+      | Some [] => tag (match ms_sizes_ins s with [] => true | _ => false end) 21
+      | Some opts => tag (match ms_sizes_ins s with
+                          | [o] => list_eqb sizes_opt_eqb o opts
+                          | _ => false end) 21 ++ [217]
+      end
+  end.
+
 Definition step_tags (before : list srec) (nsb : list (text * nat * list text)) (s : mstep) (unmodified : bool) : list nat :=
   flat_map (fun e => tag (orecs_eqb (model_edit e) (eo_after e)) 7 ++ tag (frame_ok e) 13) (ms_calls s) ++
   flat_map (fun u => tag (check_us u) 10) (ms_updates s) ++
@@ -372,15 +409,29 @@ Definition step_tags (before : list srec) (nsb : list (text * nat * list text)) 
       tag (list_eqb srec_eqb (sort_srec (unrelated (s_ABBR :: al) before)) (sort_srec (unrelated (s_ABBR :: al) after))) 20 ++
       tag (Nat.leb (length (filter (fun r => text_eqb (fst r) s_ABBR) before))
                    (length (filter (fun r => text_eqb (fst r) s_ABBR) after))) 215 ++
-      tag (nonstmt_ok nsb (ms_nonstmt s) (map fst after)) 16
+      tag (list_eqb srec_eqb (unrelated (s_SIZES_name :: al) before) (unrelated (s_SIZES_name :: al) after)) 24 ++
+      tag (nonstmt_ok nsb (ms_nonstmt s) (map fst after)) 16 ++
+      tag (ms_reread s) 22
   end ++
+  sizes_tags s ++
+  tag (negb (existsb (fun e => match eo_kind e, eo_arg_rec e with
+                               | 1, r :: _ => text_eqb (snd r) s_SIZES_name | _, _ => false end) (ms_calls s))) 216 ++
   tag (negb (existsb call_regroups (ms_calls s))) 212 ++
   tag (negb (existsb call_drops_abbr (ms_calls s))) 213 ++
   tag (negb (existsb call_inserts_abbr (ms_calls s))) 214.
 
+(* in a history every step is compared with the record list the previous step produced *)
+Fixpoint history_tags (nsb : list (text * nat * list text)) (prev : list srec) (hs : list mstep) : list (list nat) :=
+  match hs with
+  | [] => []
+  | s :: tl => step_tags prev nsb s false :: history_tags nsb (match ms_after s with Some a => a | None => prev end) tl
+  end.
+
 Definition mverdict_steps (c : mcase) : list (list nat) :=
   (tag (mc_code_eq c) 18 ++ step_tags (mc_before c) (mc_nonstmt c) (mc_us c) true) ::
-  map (fun s => step_tags (mc_before c) (mc_nonstmt c) s false) (mc_edits c).
+  map (fun s => step_tags (mc_before c) (mc_nonstmt c) s false) (mc_edits c) ++
+  history_tags (mc_nonstmt c) (mc_before c) (mc_history c) ++
+  [tag (chain_ok [] (flat_map ms_updates (mc_history c))) 23].
 
 (* one flat list per case: the tags of step k are offset by 1000 * k (k = 0 is update_source) *)
 Fixpoint offset_tags (k : nat) (ls : list (list nat)) : list nat :=
